@@ -1077,6 +1077,17 @@ def _index_map(shape, idx):
                 raise SIndexError("index out of bounds")
             iv = Sym(z3.simplify(z3.If(iv.t < 0, iv.t + _lift(n), iv.t)))
             comps.append(("int", iv))
+        elif isinstance(i, (list, tuple)) and i and all(isinstance(q, int) and not isinstance(q, bool) for q in i) \
+                and not any(isinstance(j, (list, tuple)) for j in idx if j is not i):
+            # one integer-list index (numpy advanced indexing along a single axis; the result axis stays in place)
+            vals = []
+            for q in i:
+                qv = S(q)
+                if not bool(core.And(qv >= -S(n), qv < S(n))):
+                    raise SIndexError("index out of bounds")
+                vals.append(z3.simplify(z3.If(qv.t < 0, qv.t + _lift(n), qv.t)))
+            comps.append(("list", vals, len(oshape)))
+            oshape.append(len(vals))
         else:
             raise Unsupported("advanced indexing with %r" % (type(i),))
         d += 1
@@ -1087,6 +1098,11 @@ def _index_map(shape, idx):
         for c in comps:
             if c[0] == "int":
                 out.append(_lift(c[1]))
+            elif c[0] == "list":
+                sel = c[1][-1]
+                for pos in range(len(c[1]) - 2, -1, -1):
+                    sel = z3.If(_lift(k[c[2]]) == pos, c[1][pos], sel)
+                out.append(z3.simplify(sel))
             else:
                 out.append(z3.simplify(_lift(c[1]) + k[c[3]] * _lift(c[2])))
         return tuple(out), z3.BoolVal(True)
